@@ -486,7 +486,24 @@ def rule_binding(ctx):
         ctx.missing(R, "grammar/ListableWithInputNames")
     else:
         act = (nt["alts"][0]["action"] or "").replace(" ", "")
-        ok = "operators_names.push((op,name));" in act and "Option::None" not in act and "None" not in act.replace("Option::Some", "")
+        import terms as _terms
+
+        lv, eff = grammar.action_leaves(nt["alts"][0])
+        ok = bool(lv)
+        efft = [_terms.norm(x).replace(" ", "") for x in (eff or [])]
+        for leaf in lv or []:
+            # (signals, Some(names)) with `names.push((op, name))` and `signals.push(signal)` executed before
+            if leaf["k"] != "Tuple" or len(leaf["elems"]) != 2:
+                ok = False
+                continue
+            sig, nm = leaf["elems"]
+            nm = strip(nm)
+            if not (nm["k"] == "Call" and render(nm["func"]) == "Some" and len(nm["args"]) == 1):
+                ok = False
+                continue
+            names_t = _terms.norm(nm["args"][0]).replace(" ", "")
+            sig_t = _terms.norm(sig).replace(" ", "")
+            ok = ok and ("%s.push((op,name))" % names_t) in efft and ("%s.push(signal)" % sig_t) in efft and names_t != sig_t
         ctx.check(R, "grammar/named-inputs/last-name-kept", ok, "the last (or only) named input must be recorded with its operator; action: %s" % act[:200], (grammar.GRAMMAR, nt["alts"][0]["line"]))
         syms = [(s["name"], s["text"]) for s in nt["alts"][0]["symbols"]]
         ctx.check(R, "grammar/named-inputs/shape", [s[0] for s in syms] == ["e", "name", "op", "signal"], str(syms), (grammar.GRAMMAR, nt["alts"][0]["line"]))
